@@ -65,9 +65,10 @@ AbsLeaves == {Fn("yes"), Fn("no"), Fn("boom")}
 AN == <<"a", "None">>
 ConcLeaves == {Str(A1), Str(ABX), Str(AN), Cls("int"), Cls("str"), Fn("pos"), Fn("len"), Fn("boom"), Fn("isnone")}
 SCs == {SC(p, q, r) : p \in {<<>>, A1, AB}, r \in BOOLEAN,
-                      q \in {"isdict", "eq1", "gt0", "hasx", "isnone", "eq0", "truthy", "always"}}
+                      q \in {"isdict", "eq1", "gt0", "hasx", "isnone", "eq0", "truthy", "always",
+                             "cbool", "cstr", "cint", "cdict", "cuser"}}
 SCFew == {SC(AB, "gt0", r) : r \in BOOLEAN}
-SCNone == {SC(AB, "isnone", TRUE), SC(A1, "always", FALSE)}
+SCNone == {SC(AB, "isnone", TRUE), SC(A1, "always", FALSE), SC(AB, "cbool", TRUE), SC(AB, "cint", FALSE)}
 
 \* (TLC evaluates every constant definition without parameters at start-up, used or not; the
 \* universes therefore take a dummy parameter and only the one selected by U is built.)
@@ -111,7 +112,7 @@ ExItems2q(u) == {Str(A1), Cls("int"), Fn("pos"), Fn("boom"),
                  Sel(Fn("len"), FALSE), Sel(Fn("len"), TRUE),
                  List(<<Str(A1), Fn("pos")>>), Tup(<<Fn("pos"), Str(A1)>>),
                  AndO(<<Cls("str"), Fn("len")>>, TRUE), OrO(<<Fn("len"), Cls("str")>>, FALSE),
-                 SC(AB, "gt0", TRUE), SC(AB, "gt0", FALSE)}
+                 SC(AB, "gt0", TRUE), SC(AB, "gt0", FALSE), SC(AB, "cbool", TRUE), SC(A1, "cdict", FALSE)}
 ExDepth2q(u) == ExDepth1(u) \cup ObjsOver(ExItems2q(u), 2)
 ExItems3(u) == {Fn("pos"), Str(A1), Fn("boom")} \cup
   {Sel(List(<<NotO(Fn("len"), FALSE)>>), TRUE), NotO(Tup(<<Str(A1), Fn("pos")>>), TRUE),
